@@ -97,8 +97,8 @@ Print Assumptions monitor_sound.
    death (viol = false), the waiter/probe observations the model predicts are accepted by
    Case_C13.ok.  Together with the agreement clause of the verdict this says: an alarm of the
    C13 check on the real library is a disagreement with the model, never a monitor artefact.
-   Not covered (named): w_before = true (waiter started while the victim runs: the interleaved
-   replay [go] of model_trace) and died = false (the victim exited before the kill). *)
+   This statement is for w_before = false, died = true; monitor_complete_all below covers the
+   waiter started while the victim runs and the victim that exited before the kill. *)
 Theorem monitor_complete :
   forall reent dflt prog scen vops vres a b c ops rs wh p1 p2,
     scen <= 2 -> (forall cl, In cl prog -> call_obj cl = 0) ->
@@ -117,6 +117,50 @@ Theorem monitor_complete_static :
     Case_C13.ok (Case_C13.CCrash reent dflt prog scen false vops vres true wh p1 p2) = true.
 Proof. exact monitor_complete_static_C13_lemma. Qed.
 Print Assumptions monitor_complete_static.
+
+(* ALL kinds of cases the driver produces.  [wb]: the waiter was started while the victim was still
+   running (at the victim's first success; the model interleaves: victim up to there, the waiter's
+   blocking acquire — which parks in flock behind the victim, or gets a free path at once —, the
+   victim's remaining steps, the death, the parked waiter resumed); [died = false]: the victim was
+   not killed but had finished (vquiet: idle, its object released).  For every victim program on
+   its own object, every number of steps, every scenario (wb only in scenario 2, as generated),
+   inside the contract: the model's (waiter, probe1, probe2) is accepted by Case_C13.ok.  Key facts
+   behind it (FLockMon13.v): while the waiter is parked its descriptor never becomes the kernel
+   holder (step_holder + FD), after the victim is gone nobody live references the holder, so the
+   parked flock goes through in one step. *)
+Theorem monitor_complete_all :
+  forall reent dflt prog scen wb vops vres died a b c ops rs wh p1 p2,
+    scen <= 2 -> (wb = true -> scen = 2) -> (forall cl, In cl prog -> call_obj cl = 0) ->
+    viol (victim_end_all Case_C13.FUEL reent dflt prog scen wb (length vops)) = false ->
+    vquiet died (victim_end_all Case_C13.FUEL reent dflt prog scen wb (length vops)) ->
+    Case_C13.model_trace (Case_C13.CCrash reent dflt prog scen wb vops vres died a b c) = (ops, rs, wh, p1, p2) ->
+    Case_C13.ok (Case_C13.CCrash reent dflt prog scen wb vops vres died wh p1 p2) = true.
+Proof. exact monitor_complete_all_C13_lemma. Qed.
+Print Assumptions monitor_complete_all.
+
+(* ... and with the contract in its static form. *)
+Theorem monitor_complete_all_static :
+  forall reent dflt prog scen wb vops vres died a b c ops rs wh p1 p2,
+    scen <= 2 -> (wb = true -> scen = 2) -> (forall cl, In cl prog -> call_obj cl = 0) ->
+    prog_okb (S (length prog)) [] prog = true ->
+    vquiet died (victim_end_all Case_C13.FUEL reent dflt prog scen wb (length vops)) ->
+    Case_C13.model_trace (Case_C13.CCrash reent dflt prog scen wb vops vres died a b c) = (ops, rs, wh, p1, p2) ->
+    Case_C13.ok (Case_C13.CCrash reent dflt prog scen wb vops vres died wh p1 p2) = true.
+Proof. exact monitor_complete_all_static_C13_lemma. Qed.
+Print Assumptions monitor_complete_all_static.
+
+(* the hypotheses hold on concrete cases: waiter started before the crash, victim killed in the middle
+   of its release (after unlock, before close); and a victim that finished without being killed *)
+Example monitor_complete_all_examples :
+  let prog := [Case_C13.acq_blk 0; CRel 0 false] in
+  (viol (victim_end_all Case_C13.FUEL false TNeg prog 2 true 6) = false /\
+   Case_C13.model_trace (Case_C13.CCrash false TNeg prog 2 true [1;2;3;4;1;8] [] true false false false)
+   = ([1; 2; 3; 4; 1; 8], [RTrue], true, false, true)) /\
+  (let s := victim_end_all Case_C13.FUEL false TNeg prog 2 true 8 in
+   viol s = false /\ t_pc (thr s 0) = PIdle /\ o_fd (objs s 0) = None) /\
+  Case_C13.model_trace (Case_C13.CCrash false TNeg prog 2 true [1;2;3;4;1;8;5;7] [] false false false false)
+  = ([1; 2; 3; 4; 1; 8; 5; 7], [RTrue; RNone], true, false, true).
+Proof. vm_compute. repeat split. Qed.
 
 (* the hypotheses of monitor_complete hold on a concrete case: reentrant victim killed in the
    middle of its release (after unlock, before close), survivor waiting afterwards *)
